@@ -189,3 +189,36 @@ def tables_only_grow(prop="C07", module="ford.sourceform", replay=None):
         if replay:
             r.replay = replay()
     return [r]
+
+
+def filter_public_obligation(prop="C06", replay=None):
+    """what a module re-exports of the names it imported: the accessibility of a use-associated entity in the importing module belongs to its *local* name there (the key of the
+    imported table: `use a, only: solve => solve_impl` followed by `public :: solve`), not to the name the entity was declared with.  Recognised form of the helper filter_public
+    of FortranCodeUnit.correlate:  `{name: obj for name, obj in collection.items() if should_be_public(name)}` - key kept, value kept, the test applied to the key."""
+    import ast
+    from harness import loader
+    from harness.core import OR, PROVED, REFUTED, UNKNOWN
+    oid = f"{prop}.S.FortranCodeUnit.correlate.filter_public.accessibility_is_looked_up_by_the_local_name"
+    fn = loader.find_def("ford.sourceform", "FortranCodeUnit.correlate")
+    inner = [n for n in ast.walk(fn) if isinstance(n, ast.FunctionDef) and n.name == "filter_public"]
+    if len(inner) != 1:
+        return [OR(id=oid, status=UNKNOWN, kind="S", target="ford.sourceform.FortranCodeUnit.correlate", detail="helper filter_public not found")]
+    rets = [r.value for r in ast.walk(inner[0]) if isinstance(r, ast.Return)]
+    ok, why = False, "not a single dict comprehension"
+    if len(rets) == 1 and isinstance(rets[0], ast.DictComp) and len(rets[0].generators) == 1:
+        dc, g = rets[0], rets[0].generators[0]
+        param = inner[0].args.args[0].arg
+        if isinstance(g.target, ast.Tuple) and len(g.target.elts) == 2 and all(isinstance(x, ast.Name) for x in g.target.elts) and ast.unparse(g.iter) == f"{param}.items()":
+            k, v = g.target.elts[0].id, g.target.elts[1].id
+            tests = [ast.unparse(t) for t in g.ifs]
+            ok = ast.unparse(dc.key) == k and ast.unparse(dc.value) == v and tests == [f"should_be_public({k})"]
+            why = f"key `{ast.unparse(dc.key)}`, value `{ast.unparse(dc.value)}`, filter {tests}"
+    r = OR(id=oid, status=PROVED if ok else UNKNOWN, kind="S", role="post", backend="ast", target="ford.sourceform.FortranCodeUnit.correlate",
+           desc=f"filter_public returns `{{name: obj for name, obj in collection.items() if should_be_public(name)}}` ({why})")
+    if not ok:
+        hit = replay() if replay else None
+        r.detail = "the re-export filter is not of the recognised form"
+        if hit:
+            r.status, r.replay = REFUTED, hit
+            r.detail += ": entities re-exported under a new name are missing from (or leak into) what the module exports"
+    return [r]
